@@ -91,17 +91,31 @@ def cli_file_vs_stdout(chk, recs):
         for i, r in enumerate(recs):
             if r["impl"].get("status") != "ok":
                 continue
-            p = os.path.join(tmp, "p%d.bloch" % i)
+            # the source is named in the ways a user names it: absolute with the documented extension, without an
+            # extension below a directory whose name has a dot, as ./name, and through ../ from a subdirectory
+            shape = i % 4
+            cwd = os.path.join(tmp, "w%d" % i, "sub")
+            os.makedirs(os.path.join(tmp, "w%d" % i, "proj.v1"), exist_ok=True)
+            os.makedirs(cwd, exist_ok=True)
+            if shape == 0:
+                p = arg = os.path.join(tmp, "p%d.bloch" % i); q = os.path.join(tmp, "p%d.qasm" % i)
+            elif shape == 1:
+                arg = "../proj.v1/prog"; p = os.path.join(tmp, "w%d" % i, "proj.v1", "prog"); q = p + ".qasm"
+            elif shape == 2:
+                arg = "./prog"; p = os.path.join(cwd, "prog"); q = p + ".qasm"
+            else:
+                arg = "../../w%d/main.v2.bloch" % i; p = os.path.join(tmp, "w%d" % i, "main.v2.bloch")
+                q = os.path.join(tmp, "w%d" % i, "main.v2.qasm")
             open(p, "w").write(r["src"])
             dfile = os.path.join(tmp, "d%d.txt" % i)
             open(dfile, "w").write("\n".join(sc.fnum(d) for d in r["prog"].draws) + "\n")
-            rc, out = vlib.sh([exe, "--emit-qasm", p], env={"BLOCH_NO_UPDATE_CHECK": "1", "BLOCH_VERIF_DRAWS": dfile}, timeout=60)
-            q = os.path.join(tmp, "p%d.qasm" % i)
+            rc, out = vlib.sh([exe, "--emit-qasm", arg], cwd=cwd, env={"BLOCH_NO_UPDATE_CHECK": "1", "BLOCH_VERIF_DRAWS": dfile}, timeout=60)
             n += 1
             text = open(q).read() if os.path.exists(q) else None
             if rc != 0 or text is None or not out.endswith(text) or text != r["impl"]["qasm"]:
                 chk.report("c05-file", {"source": r["src"], "stdout": out[-2000:], "file": text, "rc": rc,
-                                        "how": "bloch --emit-qasm p.bloch; diff p.qasm against the OPENQASM block printed"},
+                                        "path": arg, "expected_file": os.path.relpath(q, cwd),
+                                        "how": "from a directory sub/: bloch --emit-qasm <path>; diff <path without extension>.qasm against the OPENQASM block printed"},
                            "the .qasm file differs from what --emit-qasm prints")
     finally:
         shutil.rmtree(tmp, ignore_errors=True)
